@@ -670,6 +670,11 @@ type stats struct {
 	probes      int64
 	bySrc       map[string]int64
 	ibSkipped   map[string]int64 // in-block family: states without a usable block prefix, by reason
+	sepPairs    map[string]int64 // ordered pairs of kinds checked at the leaf constructors
+	reDoors     map[string]int64 // door -> verdicts on reinterpreted elements
+	reNA        map[string]int64 // kind -> elements without any reinterpretation
+	preimageOK  int64
+	preimageBad int64
 	postGenuine int64            // genuine live contracts presented after RequireHeight (must be refused too)
 	ibPrefixes  int64            // block prefixes built, validated and applied
 	ibClasses   map[string]int64 // door/id source/contents class -> probes
@@ -682,7 +687,14 @@ type stats struct {
 func newStats() *stats {
 	return &stats{asks: map[string]int64{}, verdicts: map[string]*[2]int64{}, kinds: map[string]map[string]int64{}, muts: map[string]int64{},
 		bases: map[string]int64{}, fields: map[string]map[string]int64{}, heights: map[int]int64{},
-		nondec: map[string]int64{}, suppErr: map[string]int64{}, bySrc: map[string]int64{}, ibSkipped: map[string]int64{}, ibClasses: map[string]int64{}}
+		nondec: map[string]int64{}, suppErr: map[string]int64{}, bySrc: map[string]int64{}, ibSkipped: map[string]int64{}, ibClasses: map[string]int64{}, sepPairs: map[string]int64{}, reDoors: map[string]int64{}, reNA: map[string]int64{}}
+}
+
+func (s *stats) noteP(p *probe, door, role string, accepted bool) {
+	s.note(door, role, p.e.k, accepted)
+	if p.mut == "reinterpret" {
+		s.reDoors[door]++
+	}
 }
 
 func (s *stats) note(door, role string, k kind, accepted bool) {
@@ -734,7 +746,7 @@ func (h *host) judgeV2Txn(c *vlib.Ctx, st *stats, p probe, role string, report f
 		st.mu.Unlock()
 		return
 	}
-	st.note("v2txn", role, k, acc)
+	st.noteP(&p, "v2txn", role, acc)
 	if acc == p.exp && !acc && p.tpath != "" {
 		st.field("v2txn", k, p.tpath)
 	}
@@ -810,7 +822,7 @@ func judge(c *vlib.Ctx, st *stats, h *host, p probe, o judgeOpts) {
 	// the shim
 	got, pan := h.askShim(p.e, p.spent)
 	st.mu.Lock()
-	st.note("shim", "", k, got)
+	st.noteP(&p, "shim", "", got)
 	if got == p.exp && pan == nil {
 		if !got && p.tpath != "" {
 			st.field("shim", k, p.tpath)
@@ -836,7 +848,7 @@ func judge(c *vlib.Ctx, st *stats, h *host, p probe, o judgeOpts) {
 		}
 		got, pan := h.askVTE(p.e, role)
 		st.mu.Lock()
-		st.note("vte", role, k, got)
+		st.noteP(&p, "vte", role, got)
 		if got == p.exp && !got && p.tpath != "" {
 			st.field("vte", k, p.tpath)
 		}
@@ -875,7 +887,7 @@ func judge(c *vlib.Ctx, st *stats, h *host, p probe, o judgeOpts) {
 				st.mu.Unlock()
 				continue
 			}
-			st.note(v.door, v.role, k, acc)
+			st.noteP(&p, v.door, v.role, acc)
 			if acc == p.exp && !acc && p.tpath != "" {
 				st.field(v.door, k, p.tpath)
 			}
@@ -898,7 +910,7 @@ func judge(c *vlib.Ctx, st *stats, h *host, p probe, o judgeOpts) {
 				}
 				got, err, pan := h.askSuppPlaced(*genuine, p.e, list, pl)
 				st.mu.Lock()
-				st.note("supp-placed", list+"/"+pl, k, got)
+				st.noteP(&p, "supp-placed", list+"/"+pl, got)
 				if got == p.exp && !got && p.tpath != "" {
 					st.field("supp-placed", k, p.tpath)
 				}
@@ -917,7 +929,7 @@ func judge(c *vlib.Ctx, st *stats, h *host, p probe, o judgeOpts) {
 		for _, list := range suppLists(k) {
 			got, err, pan := h.askSupp(p.e, list)
 			st.mu.Lock()
-			st.note("supp", list, k, got)
+			st.noteP(&p, "supp", list, got)
 			if got == p.exp && !got && p.tpath != "" {
 				st.field("supp", k, p.tpath)
 			}
@@ -937,7 +949,7 @@ func judge(c *vlib.Ctx, st *stats, h *host, p probe, o judgeOpts) {
 				report("supp", list, got, pan, extra)
 			}
 			st.mu.Lock()
-			st.note("supp-form", list+"@"+h.defaultForm(), k, got) // the carrier above has this form
+			st.noteP(&p, "supp-form", list+"@"+h.defaultForm(), got) // the carrier above has this form
 			st.mu.Unlock()
 		}
 	}
@@ -974,7 +986,7 @@ func judge(c *vlib.Ctx, st *stats, h *host, p probe, o judgeOpts) {
 						role = list + "/" + a.order + "@" + fname
 					}
 					st.mu.Lock()
-					st.note(a.door, role, k, got)
+					st.noteP(&p, a.door, role, got)
 					if got == p.exp && !got && p.tpath != "" {
 						st.field(a.door, k, p.tpath)
 					}
@@ -999,7 +1011,7 @@ func judge(c *vlib.Ctx, st *stats, h *host, p probe, o judgeOpts) {
 		if cb := ph.form("v2-data-no-txns"); cb != nil {
 			got, err, pan := ph.askForm(cb, p.e, nil, "", "expiring-contract")
 			st.mu.Lock()
-			st.note("supp-post-require", "expiring-contract", k, got)
+			st.noteP(&p, "supp-post-require", "expiring-contract", got)
 			if p.exp {
 				st.postGenuine++
 			}
